@@ -172,6 +172,24 @@ def build_scenarios(T, base, tier, serial_T=None):
     S.append(Scn("tar2sqfs-buffer-boundary", "tar2sqfs", T, os.path.join(base, "s12b"), prep_bigtar,
                  lambda b, out: [T["tar2sqfs"], "-q", "-b", "131072", "-j", "1", "-c", "lz4", out], "image", packer=True, stdin_file=lambda b: os.path.join(b, "in.tar")))
 
+    # S12c/d: one record that spans several 8 KiB metadata blocks (a 20000-byte symlink target, a 30000-byte xattr value): the metadata writer
+    #         flushes more than once inside a single append call
+    def prep_longlink(b):
+        spec = [E(b"d", "dir", 0o755), E(b"d/long", "slink", 0o777, target=b"/".join([b"t" * 99] * 200)), E(b"d/after", "file", content=b"after\n"),
+                E(b"e", "slink", 0o777, target=b"short")]
+        pf = treegen.render_packfile(spec, b)
+        open(os.path.join(b, "pack.txt"), "wb").write(pf)
+    S.append(Scn("gensquashfs-long-symlink", "gensquashfs", T, os.path.join(base, "s12c"), prep_longlink,
+                 lambda b, out: [T["gensquashfs"], "-q", "-b", "4096", "-j", "1", "-c", "lz4", "-F", os.path.join(b, "pack.txt"), "-D", os.path.join(b, "in"), out],
+                 "image", packer=True))
+
+    def prep_bigxattr(b):
+        TE = tarcases.E
+        ents = [TE(b"f", "file", content=b"payload\n", xattrs={b"user.big": content_pattern("xv", 30000), b"user.small": b"s"}), TE(b"g", "file", content=b"g", xattrs={b"user.small": b"s"})]
+        open(os.path.join(b, "in.tar"), "wb").write(tarmk.archive(ents, "pax"))
+    S.append(Scn("tar2sqfs-big-xattr", "tar2sqfs", T, os.path.join(base, "s12d"), prep_bigxattr,
+                 lambda b, out: [T["tar2sqfs"], "-q", "-b", "4096", "-j", "1", "-c", "lz4", out], "image", packer=True, stdin_file=lambda b: os.path.join(b, "in.tar")))
+
     # S13: rdsquashfs xattr dump and stat (xattr reader, id table)
     S.append(Scn("rdsquashfs-xattr", "rdsquashfs", T, os.path.join(base, "s13"), prep_img,
                  lambda b, out: [T["rdsquashfs"], "-x", "x", os.path.join(b, "img.sqfs")], "stdout"))
